@@ -22,10 +22,14 @@ ReadDoneOK(e) ==
     ELSE IF HasNL(rbuf) THEN
         LET ln == SubSeq(rbuf, 1, FirstNL(rbuf))
             d  == Utf8Decode(ln)
-        IN  IF Len(ln) > Limit
-            THEN e.res = "terr" /\ poisoned' = TRUE /\ UNCHANGED rbuf
-            ELSE /\ IF d.ok THEN (e.res = "line" /\ e.s = d.s) ELSE e.res = "terr"
-                 /\ rbuf' = SubSeq(rbuf, FirstNL(rbuf) + 1, Len(rbuf)) /\ UNCHANGED poisoned
+            over == e.res = "terr" /\ poisoned' = TRUE /\ UNCHANGED rbuf
+            fits == /\ IF d.ok THEN (e.res = "line" /\ e.s = d.s) ELSE e.res = "terr"
+                    /\ rbuf' = SubSeq(rbuf, FirstNL(rbuf) + 1, Len(rbuf)) /\ UNCHANGED poisoned
+        IN  \* the limit is the stream reader's: asyncio accepts a line whose terminator sits exactly at the limit
+            \* (limit + 1 bytes with the newline); that boundary belongs to the reader, not to the library - either way
+            IF Len(ln) > Limit + 1 THEN over
+            ELSE IF Len(ln) = Limit + 1 THEN (over \/ fits)
+            ELSE fits
     ELSE IF Len(rbuf) > Limit THEN e.res = "terr" /\ poisoned' = TRUE /\ UNCHANGED rbuf
     ELSE /\ eof /\ e.res = "terr" /\ rbuf' = <<>> /\ UNCHANGED poisoned   \* the stream ended mid-line
 
